@@ -37,7 +37,7 @@ def floors(tier):
     for c in ("eq:identical", "eq:perturbed-name", "eq:perturbed-label", "eq:perturbed-time", "eq:perturbed-count", "eq:other-type",
               "eq:foreign", "eq:symmetry-pair", "validate:corrupt-span", "validate:corrupt-order", "validate:corrupt-out-of-span",
               "validate:corrupt-degenerate", "validate:clean", "validate:error-mode-raises", "samples:on-boundary", "samples:ties",
-              "invert:touching", "invert:empty", "invert:at-bounds", "find:regex", "find:substr", "fuzzy:tie"):
+              "invert:touching", "invert:empty", "invert:at-bounds", "find:regex", "find:substr", "fuzzy:tie", "requery-after-mutation"):
         f["classes"]["C15:" + c] = 30
     return f
 
@@ -725,6 +725,30 @@ def _workload(tier, rng, shard, nshards):
             _ = (ea == ed, ed == ea, ea == tuple(e), tuple(e) == ea, ea != eb)
             if kind == "I":
                 _ = ea == Point(e[0], e[2])
+        # one live object, queried again after in-place edits (a cached view must not survive a mutation)
+        if k % 2 == 0:
+            live = t.new()
+            for _m in range(2):
+                if kind == "I":
+                    a0 = rng.choice(bounds) if rng.random() < 0.5 else rng.uniform(0, hi)
+                    with core.paused():
+                        call(live.insertEntry, (a0, a0 + rng.choice([0.05, 0.125, 0.3]), rng.choice(["a", "zz"])), "merge", "silence")
+                else:
+                    with core.paused():
+                        call(live.insertEntry, (rng.uniform(0, hi), rng.choice(["a", "zz"])), "replace", "silence")
+                if len(live.entries) and rng.random() < 0.4:
+                    with core.paused():
+                        call(live.deleteEntry, rng.choice(live.entries))
+                REC.cls("C15:requery-after-mutation")
+                call(live.find, rng.choice(["a", "zz", "z"]), rng.random() < 0.5, False)
+                _ = live.timestamps
+                if kind == "I" and len(live.entries):
+                    call(live.getNonEntries)
+                    call(live.getValuesInIntervals, rows)
+                elif kind == "P":
+                    call(live.getValuesAtPoints, rows, False)
+                call(live.validate, "silence")
+                _ = (live == t, t == live)
         # validate: clean, then corruptions through public attributes and the entry list
         call(t.validate, rng.choice(("silence", "warning", "error")))
         bad = t.new()
